@@ -47,6 +47,7 @@ type jop struct {
 	Owner *uint64    `json:"owner,omitempty"`
 	RType uint64     `json:"rtype,omitempty"`
 	UType uint64     `json:"utype,omitempty"`
+	Quiet bool       `json:"quiet,omitempty"` // do not look at the store after this step (bulk phases)
 }
 
 type jbucket struct {
@@ -69,7 +70,14 @@ type jobs struct {
 	LOrg  [][4]uint64 `json:"lorg"` // core, variant, found(0/1), id
 	LBkt  [][4]uint64 `json:"lbkt"` // org, name, found, id
 	LUsr  [][3]uint64 `json:"lusr"` // name, found, id
+	Lst   []jlist     `json:"lst"`  // FindBuckets(OrganizationID, Limit large)
+	Skip  bool        `json:"skip,omitempty"`
 	ErrS  string      `json:"err_text,omitempty"`
+}
+type jlist struct {
+	Org uint64   `json:"org"`
+	OK  bool     `json:"ok"`
+	IDs []uint64 `json:"ids"`
 }
 type jcase struct {
 	Store string `json:"store,omitempty"` // "bolt": a bolt KV store in a temporary file instead of inmem
@@ -108,10 +116,28 @@ func orgNameOf(s string) (uint64, uint64, bool) {
 
 var bktNames = []string{"_tasks", "_monitoring", "_other", "q\"x", "", "ba", "bb", "bc"}
 
+// bucket name number -> string: 0..7 the special table, n >= 8 a short ordinary name whose
+// byte order is unrelated to n ("k" + 3 digits of 73*n mod 1000; injective for n < 1008).
+func bktName(n uint64) string {
+	if n < uint64(len(bktNames)) {
+		return bktNames[n]
+	}
+	return fmt.Sprintf("k%03d", (73*n)%1000)
+}
 func bktNameOf(s string) (uint64, bool) {
 	for i, n := range bktNames {
 		if n == s {
 			return uint64(i), true
+		}
+	}
+	var v uint64
+	if len(s) == 4 && s[0] == 'k' {
+		if _, err := fmt.Sscanf(s[1:], "%03d", &v); err == nil {
+			// 73 * 137 = 10001 = 1 (mod 1000)
+			n := (137 * v) % 1000
+			if n >= uint64(len(bktNames)) && bktName(n) == s {
+				return n, true
+			}
 		}
 	}
 	return 0, false
@@ -281,6 +307,20 @@ func less(a, b []uint64) bool {
 
 // observe: register new ids (orgs, then buckets, then users, each in ascending real id =
 // creation order), dump everything, run the lookups.
+// quiet: only learn the new ids (in creation order) and the error class.
+func (w *world) quiet(err error) jobs {
+	o := jobs{Err: errClass(err), Skip: true}
+	if err != nil {
+		o.ErrS = err.Error()
+	}
+	for kind, name := range []string{"organizationsv1", "bucketsv1", "usersv1"} {
+		for _, e := range w.bucket(name) {
+			w.register(w.decID(e.k), kind)
+		}
+	}
+	return o
+}
+
 func (w *world) observe(err error) jobs {
 	o := jobs{Err: errClass(err)}
 	if err != nil {
@@ -450,17 +490,30 @@ func (w *world) observe(err error) jobs {
 	}
 	for _, oc := range porgs {
 		for _, bn := range []uint64{0, 5, 6} {
-			b, err := w.svc.FindBucketByName(w.ctx, w.real(oc), bktNames[bn])
+			b, err := w.svc.FindBucketByName(w.ctx, w.real(oc), bktName(bn))
 			var id platform.ID
 			if err == nil {
 				id = b.ID
-				if b.Name != bktNames[bn] || b.OrgID != w.real(oc) {
-					w.bad = append(w.bad, fmt.Sprintf("FindBucketByName(%d,%q) returned %q of org %s", oc, bktNames[bn], b.Name, b.OrgID))
+				if b.Name != bktName(bn) || b.OrgID != w.real(oc) {
+					w.bad = append(w.bad, fmt.Sprintf("FindBucketByName(%d,%q) returned %q of org %s", oc, bktName(bn), b.Name, b.OrgID))
 				}
 			}
 			f, c := lookup(id, err)
 			o.LBkt = append(o.LBkt, [4]uint64{oc, bn, f, c})
 		}
+	}
+	for _, oc := range porgs {
+		org := w.real(oc)
+		bs, _, err := w.svc.FindBuckets(w.ctx, influxdb.BucketFilter{OrganizationID: &org}, influxdb.FindOptions{Limit: 1000000})
+		l := jlist{Org: oc, OK: err == nil, IDs: []uint64{}}
+		for _, b := range bs {
+			if b.OrgID != org {
+				w.bad = append(w.bad, fmt.Sprintf("FindBuckets(org %d) returned bucket %s of org %s", oc, b.ID, b.OrgID))
+			}
+			l.IDs = append(l.IDs, w.can(b.ID))
+		}
+		sort.Slice(l.IDs, func(i, j int) bool { return l.IDs[i] < l.IDs[j] })
+		o.Lst = append(o.Lst, l)
 	}
 	for un := uint64(1); un <= 3; un++ {
 		n := usrNames[un]
@@ -500,7 +553,7 @@ func (w *world) apply(op jop) error {
 	case "delete_org":
 		return w.svc.DeleteOrganization(ctx, w.real(op.ID))
 	case "create_bucket":
-		b := &influxdb.Bucket{OrgID: w.real(op.ID), Name: bktNames[*op.Name]}
+		b := &influxdb.Bucket{OrgID: w.real(op.ID), Name: bktName(*op.Name)}
 		if op.Sys {
 			b.Type = influxdb.BucketTypeSystem
 		}
@@ -508,7 +561,8 @@ func (w *world) apply(op jop) error {
 	case "update_bucket":
 		upd := influxdb.BucketUpdate{}
 		if op.Name != nil {
-			upd.Name = &bktNames[*op.Name]
+			nm := bktName(*op.Name)
+			upd.Name = &nm
 		} else {
 			d := "descr"
 			upd.Description = &d
@@ -608,10 +662,20 @@ func opTerm(o jop) string {
 	panic("op")
 }
 func obsTerm(o jobs, same bool) string {
+	if o.Skip {
+		return "(oskip " + num(o.Err) + ")"
+	}
 	if same {
 		return "(osame " + num(o.Err) + ")"
 	}
-	var orgs, oidx, bkts, bidx, users, uidx, urms, uix, lorg, lbkt, lusr []string
+	var orgs, oidx, bkts, bidx, users, uidx, urms, uix, lorg, lbkt, lusr, lst []string
+	for _, l := range o.Lst {
+		if l.OK {
+			lst = append(lst, fmt.Sprintf("(mk_ls %d (sL %s))", l.Org, nums(l.IDs)))
+		} else {
+			lst = append(lst, fmt.Sprintf("(mk_ls %d nL)", l.Org))
+		}
+	}
 	for _, e := range o.Orgs {
 		orgs = append(orgs, app("mk_org", e[:]...))
 	}
@@ -645,9 +709,9 @@ func obsTerm(o jobs, same bool) string {
 	for _, e := range o.LUsr {
 		lusr = append(lusr, fmt.Sprintf("(mk_lu %d %s)", e[0], optN(e[1], e[2])))
 	}
-	return fmt.Sprintf("(Build_obs false %s %s %s %s %s %s %s %s %s %s %s %s %s)",
+	return fmt.Sprintf("(Build_obs false false %s %s %s %s %s %s %s %s %s %s %s %s %s %s)",
 		num(o.Err), vh.List(orgs), vh.List(oidx), vh.List(bkts), vh.List(bidx), vh.List(users), vh.List(uidx),
-		nums(o.Pwds), vh.List(urms), vh.List(uix), vh.List(lorg), vh.List(lbkt), vh.List(lusr))
+		nums(o.Pwds), vh.List(urms), vh.List(uix), vh.List(lorg), vh.List(lbkt), vh.List(lusr), vh.List(lst))
 }
 
 // paddedDelete: the history deletes an organization and uses a blank-padded organization
@@ -689,7 +753,11 @@ func run(w *vh.W, c *jcase, length int, gen func(*world) jop) {
 		if panicked != "" {
 			break
 		}
-		c.Obs = append(c.Obs, wd.observe(err))
+		if op.Quiet {
+			c.Obs = append(c.Obs, wd.quiet(err))
+		} else {
+			c.Obs = append(c.Obs, wd.observe(err))
+		}
 		w.Count("op", op.Op)
 		w.Count("err:"+op.Op, fmt.Sprint(c.Obs[len(c.Obs)-1].Err))
 	}
@@ -702,7 +770,7 @@ func run(w *vh.W, c *jcase, length int, gen func(*world) jop) {
 	nontrivial := false
 	for i, o := range c.Obs {
 		same := false
-		if i > 0 {
+		if i > 0 && !o.Skip && !c.Obs[i-1].Skip {
 			a, b := c.Obs[i-1], o
 			a.Err, a.ErrS, b.Err, b.ErrS = 0, "", 0, ""
 			same = reflect.DeepEqual(a, b)
@@ -730,12 +798,54 @@ func run(w *vh.W, c *jcase, length int, gen func(*world) jop) {
 	w.Count("padded_name_and_org_delete", fmt.Sprint(paddedDelete(c.Ops)))
 }
 
+// largeHistory: an organization with MANY buckets is deleted.  final+del user buckets are
+// created in org A (names in the order perm gives: creation order, id order and name order
+// all differ), ren of them renamed, del deleted, all without looking at the store; the last
+// bulk step and everything after it is observed in full.  With other, a second organization
+// with a bucket exists and is used again afterwards.  Canonical ids are predictable because
+// every creation succeeds.
+func largeHistory(perm []int, final, del, ren int, other bool) []jop {
+	var ops []jop
+	next := uint64(1)
+	ops = append(ops, jop{Op: "create_org", OName: on(1, 0)})
+	orgA := next
+	next += 3
+	var orgB, bktB uint64
+	if other {
+		ops = append(ops, jop{Op: "create_org", OName: on(2, 0)})
+		orgB = next
+		next += 3
+		ops = append(ops, jop{Op: "create_bucket", ID: orgB, Name: up(5)})
+		bktB = next
+		next++
+	}
+	total := final + del
+	var ids []uint64
+	for i := 0; i < total; i++ {
+		ops = append(ops, jop{Op: "create_bucket", ID: orgA, Name: up(uint64(8 + perm[i])), Quiet: true})
+		ids = append(ids, next)
+		next++
+	}
+	for i := 0; i < ren; i++ {
+		ops = append(ops, jop{Op: "update_bucket", ID: ids[(5+11*i)%total], Name: up(uint64(8 + perm[total+i])), Quiet: true})
+	}
+	for i := 0; i < del; i++ {
+		ops = append(ops, jop{Op: "delete_bucket", ID: ids[(2+13*i)%total], Quiet: true})
+	}
+	ops[len(ops)-1].Quiet = false
+	ops = append(ops, jop{Op: "delete_org", ID: orgA})
+	if other {
+		ops = append(ops, jop{Op: "create_bucket", ID: orgB, Name: up(uint64(8 + perm[0]))}, jop{Op: "update_bucket", ID: bktB, Name: up(6)})
+	}
+	return ops
+}
+
 func up(v uint64) *uint64       { return &v }
 func on(c, v uint64) *[2]uint64 { return &[2]uint64{c, v} }
 
 func main() {
 	w := vh.New("C30", "From Verif Require Import Base.Prelude Model.C30.\nOpen Scope N_scope.", "case", "check")
-	w.Rule = "histories (1-12 operations) of create/rename/describe/delete organization (3 names x {plain, blank-padded}, empty name; optional owner from the caller's context), create/rename/delete bucket (3 ordinary names, _tasks, _monitoring, another underscore name, a quoted name, the empty name; user or system type), create/rename/delete user (3 names), set password, add/remove user-resource mapping (on organizations, buckets, never-existing ids), through the real tenant.Service on inmem KV (hand-picked histories also, and 1 in 8 random ones instead, on a bolt KV store in a temporary file); targets are drawn from the ids created so far (live or already deleted) and never-existing ids; hand-picked histories first; n>=5000 (thorough) adds ALL 10^4 histories of length 4 over 10 symbolic operations (create org plain/padded, rename/delete the first org, create/rename/delete the first user bucket, create/delete the first user, map the first user to the first bucket or org), every prefix observed. After every operation: error class, dump of the 9 KV buckets, FindOrganization/FindBucketByName/FindUser lookups. Non-trivial: some operation reports a conflict or a rename/delete/unmapping succeeds. Distinct: distinct Gallina terms."
+	w.Rule = "histories (1-12 operations) of create/rename/describe/delete organization (3 names x {plain, blank-padded}, empty name; optional owner from the caller's context), create/rename/delete bucket (3 ordinary names, _tasks, _monitoring, another underscore name, a quoted name, the empty name; user or system type), create/rename/delete user (3 names), set password, add/remove user-resource mapping (on organizations, buckets, never-existing ids), through the real tenant.Service on inmem KV (hand-picked histories also, and 1 in 8 random ones instead, on a bolt KV store in a temporary file); targets are drawn from the ids created so far (live or already deleted) and never-existing ids; hand-picked histories first, then one LARGE-organization history (99 user buckets created with short names whose byte order differs from creation order, one renamed, one deleted, then DeleteOrganization, a second organization untouched) and 1 in 60 random ones like it (97-130 user buckets left, 0-3 renamed, 0-3 deleted; the bulk steps are not observed, the step before the delete and everything after it is); n>=5000 (thorough) adds ALL 10^4 histories of length 4 over 10 symbolic operations (create org plain/padded, rename/delete the first org, create/rename/delete the first user bucket, create/delete the first user, map the first user to the first bucket or org), every prefix observed. After every operation: error class, dump of the 9 KV buckets, FindOrganization/FindBucketByName/FindUser lookups, FindBuckets(org, explicit large limit) for the two newest organizations. Non-trivial: some operation reports a conflict or a rename/delete/unmapping succeeds. Distinct: distinct Gallina terms."
 	var rc jcase
 	if w.ReplayCase(&rc) {
 		run(w, &rc, 0, nil)
@@ -767,6 +877,14 @@ func main() {
 	}
 	for _, h := range hand { // the same on a real bolt store (transactions roll back)
 		c := jcase{Ops: h, Store: "bolt"}
+		run(w, &c, 0, nil)
+	}
+	{ // one large organization (99 user buckets + 2 system buckets when it is deleted)
+		perm := make([]int, 140)
+		for i := range perm {
+			perm[i] = (i*37 + 11) % 140
+		}
+		c := jcase{Ops: largeHistory(perm, 99, 1, 1, true)}
 		run(w, &c, 0, nil)
 	}
 	r := w.Rng
@@ -928,7 +1046,17 @@ func main() {
 		}
 		w.Extra["exhaustive_len4_over_10_symbolic_ops"] = cnt
 	}
+	finals := []int{97, 98, 99, 100, 101, 105, 130}
 	for w.Len() < w.N {
+		if r.IntN(60) == 0 { // a large organization is deleted
+			c := jcase{Ops: largeHistory(r.Perm(140), finals[r.IntN(len(finals))], r.IntN(4), r.IntN(4), r.IntN(2) == 0)}
+			if r.IntN(8) == 0 {
+				c.Store = "bolt"
+			}
+			run(w, &c, 0, nil)
+			w.Count("large_org", fmt.Sprint(true))
+			continue
+		}
 		pwLeft = 0
 		if r.IntN(5) == 0 {
 			pwLeft = 1
